@@ -16,7 +16,7 @@ type C14Case struct {
 	BadMul   string            `json:"badmul,omitempty"` // when set, the file contains this out-of-range multiplier and must be rejected
 }
 
-func c14Src(c *C14Case) string { return Canon(c.File) }
+func c14Src(c *C14Case) string { return CanonMaybeDense(c.File) }
 
 var goodMuls = []string{"1", "2", "3", "5", "0x2", "0x10", "12"}
 var badMuls = []string{"0", "-1", "-9999", "10000", "0x2710", "99999", "99999999999999999999", "0x0", "-0x1"}
